@@ -346,3 +346,71 @@ Proof.
   - apply Forall_forall. intros w Hw. apply in_map_iff in Hw. destruct Hw as (x & <- & Hx).
     unfold wfb in W. rewrite Forall_forall in W. apply (hex2_spec x (W x Hx)).
 Qed.
+
+(* the hex text of a byte field reads back to the bytes *)
+Theorem hex_roundtrip b : wfb b -> parse_hex (hex_of_bytes b) = Some b.
+Proof.
+  unfold wfb. induction b as [|x r IH]; intros H; [reflexivity|].
+  inversion H as [|? ? Hx Hr]; subst.
+  unfold hex_of_bytes. cbn [flat_map]. fold (hex_of_bytes r). unfold hex2 at 1. cbn [app parse_hex].
+  rewrite (IH Hr). destruct (hex2_spec x Hx) as [E _]. unfold hex2 in E. rewrite E. reflexivity.
+Qed.
+
+(* ---- prefixes: "address/length" reads back to the masked address and the length ---- *)
+Lemma ip4_no_slash b : ~ In 47 (ip4_string b).
+Proof.
+  unfold ip4_string. intros Hin. apply in_intersperse in Hin. destruct Hin as [[H|[]]|(w & Hw & Hc)]; [discriminate|].
+  apply in_map_iff in Hw. destruct Hw as (x & <- & _). revert Hc. apply digits_no; [apply show_dec_digits|lia].
+Qed.
+
+Lemma ip6_no_slash gs : Forall (fun g => g < 65536) gs -> ~ In 47 (ip6_string gs).
+Proof.
+  intros Hb Hin. pose proof (ip6_chars gs Hb) as G. rewrite Forall_forall in G.
+  destruct (G 47 Hin) as [Hh|Hh]; [unfold hexchar in Hh; lia|discriminate].
+Qed.
+
+Lemma render_ip_no_slash b : wfb b -> ~ In 47 (render_ip b).
+Proof.
+  intros Hw. unfold render_ip. destruct (Nat.eqb (length b) 4); [apply ip4_no_slash|].
+  destruct (Nat.eqb (length b) 16); [|intros []].
+  unfold ip16_string. destruct (is4in6 b).
+  - intros Hin. apply in_app_or in Hin. destruct Hin as [Hin|Hin]; [|revert Hin; apply ip4_no_slash].
+    vm_compute in Hin. repeat (destruct Hin as [Hin|Hin]; [discriminate|]). exact Hin.
+  - apply ip6_no_slash. apply groups_bound. exact Hw.
+Qed.
+
+Lemma mask_bytes_length b : forall bits, length (mask_bytes b bits) = length b.
+Proof.
+  induction b as [|x r IH]; intros bits; [reflexivity|]. cbn [mask_bytes].
+  destruct (8 <=? bits); cbn [length]; [rewrite IH; reflexivity|rewrite map_length; reflexivity].
+Qed.
+
+Lemma mask_bytes_wfb b : wfb b -> forall bits, wfb (mask_bytes b bits).
+Proof.
+  unfold wfb. induction b as [|x r IH]; intros H bits; [constructor|]. inversion H as [|? ? Hx Hr]; subst.
+  cbn [mask_bytes]. destruct (8 <=? bits) eqn:E.
+  - constructor; [exact Hx|apply IH; exact Hr].
+  - constructor.
+    + apply N.leb_gt in E. assert (P : 0 < 2 ^ (8 - bits)) by (apply N.neq_0_lt_0, N.pow_nonzero; discriminate).
+      pose proof (N.mul_div_le x (2 ^ (8 - bits)) ltac:(lia)). lia.
+    + apply Forall_forall. intros y Hy. apply in_map_iff in Hy. destruct Hy as (_ & <- & _). lia.
+Qed.
+
+Theorem prefix_roundtrip addr bits :
+  wfb addr -> (length addr = 4%nat /\ bits <= 32 \/ length addr = 16%nat /\ bits <= 128) ->
+  parse_prefix (render_prefix addr bits) = Some (mask_bytes addr bits, bits).
+Proof.
+  intros Hw Hl.
+  assert (E : render_prefix addr bits = render_ip (mask_bytes addr bits) ++ 47 :: show_dec bits).
+  { unfold render_prefix, render_ip. rewrite mask_bytes_length.
+    destruct Hl as [[Hl Hb]|[Hl Hb]]; rewrite Hl; cbn [Nat.eqb].
+    - replace (32 <? bits) with false by lia. reflexivity.
+    - replace (128 <? bits) with false by lia. reflexivity. }
+  rewrite E. unfold parse_prefix.
+  rewrite split_on_app by (apply render_ip_no_slash, mask_bytes_wfb, Hw).
+  rewrite split_on_nosep by (apply digits_no; [apply show_dec_digits|lia]).
+  rewrite render_ip_roundtrip.
+  - rewrite dec_val_show. reflexivity.
+  - apply mask_bytes_wfb, Hw.
+  - rewrite mask_bytes_length. destruct Hl as [[Hl _]|[Hl _]]; [left|right]; exact Hl.
+Qed.
